@@ -219,8 +219,40 @@ def sweep_case(which, n):
     return _lib.sweep(call, anchors, (b"distinct-%d" % j for j in range(n)), n, expect)
 
 
+def shift_cases():
+    """[(label, expected, observed)] one history: argument pairs whose concatenations coincide (bytes moved
+    across the argument boundary, also around a zero byte), one after the other"""
+    H = _h()
+    S = getattr(importlib.import_module("py_ecc.bls"), "G2Basic")
+    seed = bytes(range(1, 33))
+    out = []
+    for i, (s_, k_) in enumerate([(b"salt", b"ikm-ikm"), (b"salti", b"km-ikm"), (b"salt", b"ikm-ikm"), (b"", b"saltikm-ikm"),
+                                  (b"saltikm-ikm", b""), (b"sal", b"tikm-ikm")]):
+        out.append(("hkdf_extract call %d" % i, ("ok", M.extract(s_, k_)), _norm(_call(H.hkdf_extract, s_, k_))))
+    for i, (p_, i_, n) in enumerate([(seed, b"info", 48), (seed + b"i", b"nfo", 48), (seed, b"info", 48), (seed, b"inf", 48),
+                                     (seed, b"info", 49), (seed, b"info", 48), (seed + b"info", b"", 48)]):
+        out.append(("hkdf_expand call %d" % i, ("ok", M.expand(p_, i_, n)), _norm(_call(H.hkdf_expand, p_, i_, n))))
+    for i, (k_, ki) in enumerate([(seed + b"\x00validator", b"0"), (seed, b"validator\x000"), (seed + b"\x00validator", b"0"),
+                                  (seed + b"ab", b"cd"), (seed + b"a", b"bcd"), (seed + b"abcd", b""), (seed + b"ab", b"cd"),
+                                  (seed, b"\x00"), (seed + b"\x00", b""), (seed, b"")]):
+        out.append(("KeyGen call %d" % i, ("ok", M.keygen(k_, ki)), _call(S.KeyGen, k_, ki)))
+    return out
+
+
+def replay_shift(a):
+    for lbl, exp, got in shift_cases():
+        if exp != got:
+            return {"case": lbl, "expected": exp, "observed": got}
+    return None
+
+
 def task_sweep(a, env):
     r = R("anchors-again-after-n-distinct-inputs")
+    for i, (lbl, exp, got) in enumerate(shift_cases()):
+        r.ev += 1
+        if exp != got:
+            r.viol("C16:%s:argument-boundary-shift" % lbl.split(" ")[0], ME + ":replay_shift", {}, exp, got, note=lbl)
+            break
     for which in ("extract", "expand", "keygen"):
         n = a["n"] if which != "keygen" else a["n"] // 2
         bad = sweep_case(which, n)
